@@ -74,6 +74,11 @@ def stage2Res (info : Machine.CertId → CertInfo) (s' : Machine.St) : Machine.O
     | some c => .completed c
     | none => .err true                            -- DeleteHostInfo(hostinfo)
 
+/-- what beginHandshake makes of ProcessPacket's return values: only a usable Result goes on -/
+def stage1Res (info : Machine.CertId → CertInfo) : Machine.Outcome → Option Completed
+  | .ok _ (some r) => glue info r
+  | _ => none
+
 def Sys.feed (s : Sys) (e : Ev) : Sys := { s with node := (s.node.step e).1, fed := s.fed ++ [e] }
 
 def isStage : Ev → Bool
@@ -84,11 +89,8 @@ def isStage : Ev → Bool
 def Sys.step (info : Machine.CertId → CertInfo) (s : Sys) : CEv → Sys
   | .mgr e => if isStage e then s else s.feed e
   | .recv1 via pkt respVer now mc v call =>
-    let out := (Machine.stepEv mc { myVersion := v } call).2
-    let res : Option Completed := match out with
-      | .ok _ (some r) => glue info r
-      | _ => none
-    { (s.feed (.stage1 via pkt res respVer now)) with mlog := s.mlog ++ [call] }
+    { (s.feed (.stage1 via pkt (stage1Res info (Machine.stepEv mc { myVersion := v } call).2) respVer now)) with
+      mlog := s.mlog ++ [call] }
   | .recv2 via idx mc v call =>
     match (alookup idx s.node.p.pindexes).bind s.node.p.pendingById with
     | none => s
@@ -186,12 +188,12 @@ theorem step_cinv (cfg : Cfg) (info : Machine.CertId → CertInfo) (s : Sys) (ce
     generalize hout : Machine.stepEv mc { myVersion := v } call = out at hc
     obtain ⟨s', o⟩ := out
     cases o with
-    | err e => simp [completionOf] at hc
+    | err e => simp [completionOf, stage1Res] at hc
     | ok sent res =>
       cases res with
-      | none => simp [completionOf] at hc
+      | none => simp [completionOf, stage1Res] at hc
       | some r =>
-        simp only [completionOf] at hc
+        simp only [completionOf, stage1Res] at hc
         have hg : glue info r = some c := by
           cases hgl : glue info r with
           | none => simp [hgl] at hc
